@@ -47,19 +47,96 @@ type vfE1SAddr struct{}
 func (vfE1SAddr) Network() string { return "pipe" }
 func (vfE1SAddr) String() string  { return "127.0.0.1:1" }
 
-// vfE1SRec is the server side's net.Conn: records everything written to the "socket".
+// vfE1SQ is one direction of an in-memory connection (unbounded, so a Write never blocks).
+type vfE1SQ struct {
+	mu       sync.Mutex
+	cond     *sync.Cond
+	buf      []byte
+	closed   bool
+	nonblock bool // Read returns a temporary timeout error instead of waiting
+}
+
+func vfE1SNewQ() *vfE1SQ {
+	q := &vfE1SQ{}
+	q.cond = sync.NewCond(&q.mu)
+	return q
+}
+
+type vfE1SWouldBlock struct{}
+
+func (vfE1SWouldBlock) Error() string   { return "vfE1S: no data (non-blocking read)" }
+func (vfE1SWouldBlock) Timeout() bool   { return true }
+func (vfE1SWouldBlock) Temporary() bool { return true }
+
+func (q *vfE1SQ) write(p []byte) {
+	q.mu.Lock()
+	q.buf = append(q.buf, p...)
+	q.cond.Broadcast()
+	q.mu.Unlock()
+}
+
+func (q *vfE1SQ) read(p []byte) (int, error) {
+	q.mu.Lock()
+	defer q.mu.Unlock()
+	deadline := time.Now().Add(20 * time.Second)
+	for len(q.buf) == 0 {
+		if q.closed {
+			return 0, io.EOF
+		}
+		if q.nonblock {
+			return 0, vfE1SWouldBlock{}
+		}
+		if time.Now().After(deadline) {
+			return 0, io.ErrNoProgress
+		}
+		t := time.AfterFunc(time.Second, q.cond.Broadcast)
+		q.cond.Wait()
+		t.Stop()
+	}
+	n := copy(p, q.buf)
+	q.buf = q.buf[n:]
+	return n, nil
+}
+
+func (q *vfE1SQ) set(nonblock bool) {
+	q.mu.Lock()
+	q.nonblock = nonblock
+	q.cond.Broadcast()
+	q.mu.Unlock()
+}
+
+func (q *vfE1SQ) discard() {
+	q.mu.Lock()
+	q.buf = nil
+	q.mu.Unlock()
+}
+
+func (q *vfE1SQ) close() {
+	q.mu.Lock()
+	q.closed = true
+	q.cond.Broadcast()
+	q.mu.Unlock()
+}
+
+// vfE1SRec is the server side's net.Conn: records everything written to the "socket" (buf) and
+// hands it to the client side (s2c); reads what the client side wrote (only a TLS handshake does).
 type vfE1SRec struct {
 	mu  sync.Mutex
 	buf []byte
+	s2c *vfE1SQ
+	c2s *vfE1SQ
 }
+
+func vfE1SNewRec() *vfE1SRec { return &vfE1SRec{s2c: vfE1SNewQ(), c2s: vfE1SNewQ()} }
 
 func (c *vfE1SRec) Write(p []byte) (int, error) {
 	c.mu.Lock()
 	c.buf = append(c.buf, p...)
 	c.mu.Unlock()
+	c.s2c.write(p)
 	return len(p), nil
 }
-func (c *vfE1SRec) Read(p []byte) (int, error)         { return 0, io.EOF }
+func (c *vfE1SRec) Read(p []byte) (int, error)         { return c.c2s.read(p) }
 func (c *vfE1SRec) Close() error                       { return nil }
 func (c *vfE1SRec) LocalAddr() net.Addr                { return vfE1SAddr{} }
 func (c *vfE1SRec) RemoteAddr() net.Addr               { return vfE1SAddr{} }
@@ -71,6 +148,18 @@ func (c *vfE1SRec) Len() int {
 	defer c.mu.Unlock()
 	return len(c.buf)
 }
+
+// vfE1SPeer is the client's end of the same connection (what a TLS client runs on).
+type vfE1SPeer struct{ rec *vfE1SRec }
+
+func (c vfE1SPeer) Write(p []byte) (int, error)        { c.rec.c2s.write(p); return len(p), nil }
+func (c vfE1SPeer) Read(p []byte) (int, error)         { return c.rec.s2c.read(p) }
+func (c vfE1SPeer) Close() error                       { return nil }
+func (c vfE1SPeer) LocalAddr() net.Addr                { return vfE1SAddr{} }
+func (c vfE1SPeer) RemoteAddr() net.Addr               { return vfE1SAddr{} }
+func (c vfE1SPeer) SetDeadline(t time.Time) error      { return nil }
+func (c vfE1SPeer) SetReadDeadline(t time.Time) error  { return nil }
+func (c vfE1SPeer) SetWriteDeadline(t time.Time) error { return nil }
 
 // vfE1SDecode decodes what arrived while stack `kind` was negotiated ("plain", "snappy", "deflate").
 func vfE1SDecode(kind string, raw []byte) ([]byte, error) {
@@ -88,6 +177,16 @@ func vfE1SDecode(kind string, raw []byte) ([]byte, error) {
 	}
 }
 
+// vfE1SStaleKinds: the upgrade orders that leave a stale flate writer on /repo d6aa4e3 — the last upgrade that is
+// not TLS is a deflate and at least one TLS upgrade followed it (Model.WireStack.staleAfter).
+func vfE1SStaleKinds(ups []string) bool {
+	i := len(ups) - 1
+	for i >= 0 && ups[i] == "tls" {
+		i--
+	}
+	return i >= 0 && i < len(ups)-1 && ups[i] == "deflate"
+}
+
 // vfE1SExec runs one `stack` line on the real code.
 //
 //	stack <token>...   r<hex>  Send(frameTypeResponse, data)  (write + Flush)
@@ -95,18 +194,58 @@ func vfE1SDecode(kind string, raw []byte) ([]byte, error) {
 //	                   f       client.Flush()
 //	                   b<n>    SetOutputBuffer(n, 0)    n = -1 | 64..max
 //	                   us      UpgradeSnappy()         ud<level>  UpgradeDeflate(level)
+//	                   ut      UpgradeTLS() (a real handshake with a crypto/tls client on the in-memory connection)
 //	                   s       SUB accepted (state leaves init; nothing on the wire)
+//
+// The client decodes like a real one: stacks built on the raw connection offline from the recorded bytes
+// that arrived while the stack was negotiated; from the first TLS upgrade on through the LIVE TLS client of the
+// latest handshake (always on the raw connection, as tls.Server(c.Conn) is), compression decoded on its plaintext.
+// A fatal error of the TLS client ends the line: `k:cut:<decoded on stack k before it>` and `dead`.
 func vfE1SExec(n *NSQD, line string, hist map[string]int) (string, []string) {
 	w := strings.Fields(line)
-	rec := &vfE1SRec{}
+	rec := vfE1SNewRec()
 	c := newClientV2(-1, rec, n)
 	c.HeartbeatInterval = 0
 	p := &protocolV2{nsqd: n}
 	kinds := []string{"plain"}
-	cuts := []int{} // raw offset at which stack k+1 begins
-	var all []byte  // every frame handed to Send, in order
+	live := []bool{false}  // stack k is read through the live TLS client
+	plain := [][]byte{nil} // live stacks: the TLS plaintext that arrived while stack k was negotiated
+	var ups []string       // upgrade kinds in order
+	cuts := []int{}        // raw offset at which stack k+1 begins
+	var all []byte         // every frame handed to Send, in order
 	var fails []string
+	var tc *tls.Conn
+	var tlsErr error
+	dead := false
+	drain := func() {
+		if tc == nil || dead {
+			return
+		}
+		rec.s2c.set(true)
+		defer rec.s2c.set(false)
+		buf := make([]byte, 32768)
+		for {
+			k, err := tc.Read(buf)
+			plain[len(plain)-1] = append(plain[len(plain)-1], buf[:k]...)
+			if err != nil {
+				if _, ok := err.(vfE1SWouldBlock); !ok {
+					dead, tlsErr = true, err
+				}
+				return
+			}
+		}
+	}
+	push := func(kind string, isLive bool) {
+		drain()
+		cuts = append(cuts, rec.Len())
+		kinds = append(kinds, kind)
+		live = append(live, isLive)
+		plain = append(plain, nil)
+	}
 	for _, tok := range w[1:] {
+		if dead {
+			break
+		}
 		switch {
 		case tok == "f":
 			c.writeLock.Lock()
@@ -115,14 +254,33 @@ func vfE1SExec(n *NSQD, line string, hist map[string]int) (string, []string) {
 		case tok == "s":
 			atomic.StoreInt32(&c.State, stateSubscribed)
 		case tok == "us":
-			cuts = append(cuts, rec.Len())
-			kinds = append(kinds, "snappy")
+			push("snappy", tc != nil)
+			ups = append(ups, "snappy")
 			c.UpgradeSnappy()
 			hist["upgrade:snappy"]++
+		case tok == "ut":
+			push("plain", true)
+			ups = append(ups, "tls")
+			rec.s2c.discard() // bytes of the stacks on the raw connection: decoded offline from rec.buf
+			srvErr := make(chan error, 1)
+			go func() { srvErr <- c.UpgradeTLS() }()
+			ntc := tls.Client(vfE1SPeer{rec}, &tls.Config{InsecureSkipVerify: true})
+			cerr := ntc.Handshake()
+			serr := <-srvErr
+			if cerr != nil || serr != nil {
+				rec.s2c.close()
+				rec.c2s.close()
+				return line, []string{fmt.Sprintf("ORACLE-FAIL stack-harness TLS handshake failed: client %v server %v", cerr, serr)}
+			}
+			tc = ntc
+			hist["upgrade:tls"]++
+			if len(ups) > 1 {
+				hist["upgrade:tls-after-"+ups[len(ups)-2]]++
+			}
 		case strings.HasPrefix(tok, "ud"):
 			lv, _ := strconv.Atoi(tok[2:])
-			cuts = append(cuts, rec.Len())
-			kinds = append(kinds, "deflate")
+			push("deflate", tc != nil)
+			ups = append(ups, "deflate")
 			c.UpgradeDeflate(lv)
 			hist["upgrade:deflate"]++
 		case tok[0] == 'b':
@@ -148,6 +306,7 @@ func vfE1SExec(n *NSQD, line string, hist map[string]int) (string, []string) {
 				return line, []string{fmt.Sprintf("ORACLE-FAIL stack-harness Send failed: %v", err)}
 			}
 		}
+		drain()
 	}
 	raw := append([]byte(nil), rec.buf...)
 	cuts = append(cuts, len(raw))
@@ -158,7 +317,15 @@ func vfE1SExec(n *NSQD, line string, hist map[string]int) (string, []string) {
 	for k, kind := range kinds {
 		seg := raw[from:cuts[k]]
 		from = cuts[k]
+		if live[k] {
+			seg = plain[k]
+		}
 		dec, err := vfE1SDecode(kind, seg)
+		if dead && k == len(kinds)-1 {
+			parts = append(parts, fmt.Sprintf("%d:cut:%s", k, vfHex(dec)), "dead")
+			seen = append(seen, dec...)
+			break
+		}
 		if err != nil {
 			parts = append(parts, fmt.Sprintf("%d:garbled", k))
 			garbled = true
@@ -170,24 +337,45 @@ func vfE1SExec(n *NSQD, line string, hist map[string]int) (string, []string) {
 	c.writeLock.Lock()
 	buffered := c.Writer.Buffered()
 	c.writeLock.Unlock()
-	parts = append(parts, fmt.Sprintf("buf=%d", buffered))
+	if !dead {
+		parts = append(parts, fmt.Sprintf("buf=%d", buffered))
+	}
 	// direct oracle (no model): what the client decodes, stack by stack, is the frames sent minus
 	// what is still buffered
-	if garbled || len(seen)+buffered != len(all) || !bytes.Equal(seen, all[:len(seen)]) {
+	if dead || garbled || len(seen)+buffered != len(all) || !bytes.Equal(seen, all[:len(seen)]) {
 		hist["oracle:fail"]++
 		where := "undecodable"
-		if !garbled {
+		if dead {
+			where = fmt.Sprintf("the TLS session broke after %d of %d bytes: %v", len(seen), len(all)-buffered, tlsErr)
+		} else if !garbled {
 			where = fmt.Sprintf("decoded %d of %d bytes", len(seen), len(all)-buffered)
 		}
 		clear := ""
-		if len(kinds) > 1 && len(all) > 0 {
+		if len(kinds) > 1 && len(all) > 0 && !live[len(kinds)-1] {
 			last := raw[cuts[len(kinds)-2]:]
 			if i := bytes.Index(last, all[len(all)-vfE1SMin(len(all), 10):]); i >= 0 {
 				clear = "; the last frame is readable as CLEARTEXT on the raw connection"
 			}
 		}
-		fails = append(fails, fmt.Sprintf("ORACLE-FAIL second-identify-cleartext white-box: after `%s` the client, decoding with the negotiated stack (%s), does not receive the frames the server sent (%s)%s",
-			strings.Join(w[1:], " "), strings.Join(kinds, ">"), where, clear))
+		key := "second-identify-cleartext"
+		names := append([]string(nil), kinds...)
+		for k := range names {
+			if live[k] {
+				names[k] = "tls+" + names[k]
+			}
+		}
+		if dead && vfE1SStaleKinds(ups) {
+			hist["oracle:fail:tls-after-deflate"]++
+			key = "tls-after-deflate-garbled"
+			tail := raw[cuts[len(kinds)-2]:]
+			if bytes.HasSuffix(tail, []byte{0, 0, 0, 0xff, 0xff}) {
+				clear = "; the deflate sync marker 00 00 00 ff ff is on the raw connection behind the TLS records"
+			} else {
+				clear = "; the last bytes on the raw connection are a record of the superseded TLS session"
+			}
+		}
+		fails = append(fails, fmt.Sprintf("ORACLE-FAIL %s white-box: after `%s` the client, decoding with the negotiated stack (%s), does not receive the frames the server sent (%s)%s",
+			key, strings.Join(w[1:], " "), strings.Join(names, ">"), where, clear))
 	} else {
 		hist["oracle:ok"]++
 	}
@@ -205,6 +393,7 @@ func vfE1SGen(r *vfRand, maxBuf int, deflateThenSnappy bool) string {
 	toks := []string{"stack"}
 	sub := false
 	nUp := 0
+	nTLS := 0
 	deflated := false
 	steps := 2 + r.Intn(9)
 	frame := func() string {
@@ -234,13 +423,20 @@ func vfE1SGen(r *vfRand, maxBuf int, deflateThenSnappy bool) string {
 		switch {
 		case !sub && k < 3:
 			toks = append(toks, size())
-		case !sub && k < 5 && nUp < 2:
+		case !sub && k < 5 && nUp < 3:
 			// snappy negotiated after deflate is a finding of its own on the tree before F30
 			// (snappy-after-deflate-garbled: the orphaned flate.Writer keeps being flushed); it is
-			// generated only when the tree has the fix, and replayed oracle-only otherwise
-			if r.Intn(2) == 0 && (deflateThenSnappy || !deflated) {
+			// generated only when the tree has the fix, and replayed oracle-only otherwise.
+			// TLS after deflate (open finding tls-after-deflate-garbled on /repo d6aa4e3, repaired by F30b)
+			// IS inside the model (Model.WireStack.kstep): generated on every tree
+			u := r.Intn(5)
+			switch {
+			case u < 2 && nTLS < 2:
+				toks = append(toks, "ut")
+				nTLS++
+			case u < 4 && (deflateThenSnappy || !deflated):
 				toks = append(toks, "us")
-			} else {
+			default:
 				toks = append(toks, fmt.Sprintf("ud%d", 1+r.Intn(9)))
 				deflated = true
 			}
@@ -261,6 +457,15 @@ func vfE1SGen(r *vfRand, maxBuf int, deflateThenSnappy bool) string {
 	return strings.Join(toks, " ")
 }
 
+func vfE1SCertDir() string {
+	for _, c := range []string{filepath.Join(os.Getenv("VERIF_REPO"), "nsqd", "test", "certs"), "/repo/nsqd/test/certs", "./test/certs"} {
+		if _, err := os.Stat(filepath.Join(c, "server.pem")); err == nil {
+			return c
+		}
+	}
+	return ""
+}
+
 func TestVerifStackCorr(t *testing.T) {
 	out := vfOpen("stack")
 	defer out.Close()
@@ -271,6 +476,12 @@ func TestVerifStackCorr(t *testing.T) {
 	opts.LogLevel = LOG_FATAL
 	opts.DataPath = t.TempDir()
 	opts.SnappyEnabled, opts.DeflateEnabled = true, true
+	certDir := vfE1SCertDir()
+	if certDir == "" {
+		t.Fatalf("TLS test certificates not found (set VERIF_REPO)")
+	}
+	opts.TLSCert = filepath.Join(certDir, "server.pem")
+	opts.TLSKey = filepath.Join(certDir, "server.key")
 	_, _, nsqd := mustStartNSQD(opts)
 	defer nsqd.Exit()
 	defer vfE1PanicGuard("a writer-stack call", out)()
@@ -421,10 +632,11 @@ func (c *vfE1SCli) frame(d time.Duration) (int32, []byte, error) {
 
 type vfE1SCombo struct {
 	tls   bool
-	comp  string // none | snappy | deflate
-	buf1  int    // output_buffer_size of the first IDENTIFY
-	buf2  int    // output_buffer_size of the second IDENTIFY (0 = none: control)
-	again int    // how many further IDENTIFYs after the second
+	comp  string   // none | snappy | deflate
+	buf1  int      // output_buffer_size of the first IDENTIFY
+	buf2  int      // output_buffer_size of the IDENTIFY after the upgrades (0 = none: control)
+	again int      // how many further IDENTIFYs after that one
+	more  []string // further IDENTIFYs that negotiate an upgrade, in order, after the first: tls | snappy | deflate
 }
 
 func (c vfE1SCombo) String() string {
@@ -432,7 +644,11 @@ func (c vfE1SCombo) String() string {
 	if c.tls {
 		t = 1
 	}
-	return fmt.Sprintf("tls=%d comp=%s buf1=%d buf2=%d again=%d", t, c.comp, c.buf1, c.buf2, c.again)
+	more := "-"
+	if len(c.more) > 0 {
+		more = strings.Join(c.more, ">")
+	}
+	return fmt.Sprintf("tls=%d comp=%s buf1=%d more=%s buf2=%d again=%d", t, c.comp, c.buf1, more, c.buf2, c.again)
 }
 
 // vfE1SReident runs one connection; returns "" or the failure text.
@@ -447,6 +663,86 @@ func vfE1SReident(n *NSQD, cb vfE1SCombo, idx int, r *vfRand) (key, what string)
 	if err := c.send([]byte("  V2")); err != nil {
 		return "harness", err.Error()
 	}
+	var ups []string             // the upgrades performed so far, in order
+	var base io.ReadWriter = tap // what compression wraps: the raw socket or the latest TLS session
+	mStale := -1                 // tap offset at which a stale flate writer came into being (/repo d6aa4e3)
+	marker := []byte{0, 0, 0, 0xff, 0xff}
+	// fail: a failure while a deflate writer of an earlier IDENTIFY is still installed underneath a later TLS
+	// session is the finding tls-after-deflate-garbled, whatever the step it shows up in
+	fail := func(key, what string) (string, string) {
+		if vfE1SStaleKinds(ups) {
+			note := ""
+			if mStale >= 0 && bytes.Contains(tap.since(mStale), marker) {
+				note = "; the deflate sync marker 00 00 00 ff ff is on the raw socket between the TLS records"
+			}
+			return "tls-after-deflate-garbled", fmt.Sprintf("after the upgrades %s: %s%s", strings.Join(ups, ">"), what, note)
+		}
+		return key, what
+	}
+	expectOK := func(ctx string) string {
+		ft, data, err := c.frame(10 * time.Second)
+		if err != nil || ft != frameTypeResponse || string(data) != "OK" {
+			return fmt.Sprintf("%s: frame %d %q err=%v", ctx, ft, data, err)
+		}
+		return ""
+	}
+	// afterDeflate: the stack being left is deflate on the raw socket. Its stream is never terminated, and every
+	// unsolicited client.Flush() of messagePump (forced flush while not subscribed, heartbeat) appends one more
+	// sync marker 00 00 00 ff ff to it — possibly AFTER the IDENTIFY response the client has just decoded. A client
+	// that leaves deflate has to skip such markers in front of the next stack's first byte (TLS: 0x16, snappy: 0xff).
+	afterDeflate := func() bool {
+		i := len(ups) - 1
+		for i >= 0 && ups[i] == "tls" {
+			i--
+		}
+		return i >= 0 && ups[i] == "deflate"
+	}
+	upTLS := func() string {
+		// the server wraps the RAW connection (tls.Server(c.Conn)), also when a session exists already
+		var under net.Conn = tap
+		if afterDeflate() && !vfE1SStaleKinds(ups) {
+			under = &vfE1SSkip{Conn: tap, vfE1SSkipR: vfE1SSkipR{r: tap}}
+		}
+		mh := tap.mark()
+		tc := tls.Client(under, &tls.Config{InsecureSkipVerify: true})
+		tap.SetDeadline(time.Now().Add(10 * time.Second))
+		if err := tc.Handshake(); err != nil {
+			return fmt.Sprintf("TLS handshake: %v (first bytes on the socket: %x)", err, tap.since(mh)[:vfE1SMin(16, len(tap.since(mh)))])
+		}
+		if sk, ok := under.(*vfE1SSkip); ok && sk.skipped > 0 {
+			fmt.Printf("REIDENT-NOTE %d deflate sync marker(s) of the stack being left arrived in front of the TLS handshake (unsolicited Flush)\n", sk.skipped)
+		}
+		tap.SetDeadline(time.Time{})
+		base = tc
+		c.r, c.w, c.flush = tc, tc, nil
+		ups = append(ups, "tls")
+		if vfE1SStaleKinds(ups) && mStale < 0 {
+			mStale = tap.mark()
+		}
+		return expectOK("OK after TLS upgrade")
+	}
+	upComp := func(kind string) string {
+		switch kind {
+		case "snappy":
+			var rd io.Reader = base
+			if len(ups) > 0 && ups[len(ups)-1] == "deflate" {
+				rd = &vfE1SSkipR{r: base} // see afterDeflate
+			}
+			c.r = snappy.NewReader(rd)
+			//lint:ignore SA1019 unbuffered on purpose: one command, one write
+			c.w = snappy.NewWriter(base)
+			c.flush = nil
+		case "deflate":
+			// an io.ByteReader, so that flate does NOT wrap it in a bufio.Reader: a read-ahead would swallow the
+			// first bytes of the NEXT stack when a later IDENTIFY replaces this one
+			c.r = flate.NewReader(vfE1SByteReader{base})
+			fw, _ := flate.NewWriter(base, 3)
+			c.w = fw
+			c.flush = fw.Flush
+		}
+		ups = append(ups, kind)
+		return expectOK("OK after " + kind + " upgrade")
+	}
 	js := fmt.Sprintf(`{"client_id":"vfreid","feature_negotiation":true,"tls_v1":%v,"snappy":%v,"deflate":%v,"deflate_level":3,"output_buffer_size":%d}`,
 		cb.tls, cb.comp == "snappy", cb.comp == "deflate", cb.buf1)
 	if err := c.identify(js); err != nil {
@@ -456,51 +752,46 @@ func vfE1SReident(n *NSQD, cb vfE1SCombo, idx int, r *vfRand) (key, what string)
 	if err != nil || ft != frameTypeResponse || !bytes.Contains(data, []byte(`"max_rdy_count"`)) {
 		return "harness", fmt.Sprintf("first IDENTIFY: frame %d %q err=%v", ft, data, err)
 	}
-	expectOK := func(ctx string) string {
-		ft, data, err := c.frame(10 * time.Second)
-		if err != nil || ft != frameTypeResponse || string(data) != "OK" {
-			return fmt.Sprintf("%s: frame %d %q err=%v", ctx, ft, data, err)
-		}
-		return ""
-	}
 	if cb.tls {
-		tc := tls.Client(tap, &tls.Config{InsecureSkipVerify: true})
-		tap.SetDeadline(time.Now().Add(10 * time.Second))
-		if err := tc.Handshake(); err != nil {
-			return "harness", "TLS handshake: " + err.Error()
-		}
-		tap.SetDeadline(time.Time{})
-		c.r, c.w = tc, tc
-		if e := expectOK("OK after TLS upgrade"); e != "" {
+		if e := upTLS(); e != "" {
 			return "harness", e
 		}
 	}
-	switch cb.comp {
-	case "snappy":
-		under := c.r.(io.ReadWriter)
-		c.r = snappy.NewReader(under)
-		//lint:ignore SA1019 unbuffered on purpose: one command, one write
-		c.w = snappy.NewWriter(under)
-		if e := expectOK("OK after snappy upgrade"); e != "" {
-			return "harness", e
-		}
-	case "deflate":
-		under := c.r.(io.ReadWriter)
-		c.r = flate.NewReader(under)
-		fw, _ := flate.NewWriter(under, 3)
-		c.w = fw
-		c.flush = fw.Flush
-		if e := expectOK("OK after deflate upgrade"); e != "" {
+	if cb.comp != "none" {
+		if e := upComp(cb.comp); e != "" {
 			return "harness", e
 		}
 	}
-	upgraded := cb.tls || cb.comp != "none"
+	// further IDENTIFYs, each negotiating one more upgrade, sent THROUGH the stack negotiated so far
+	for i, kind := range cb.more {
+		js := fmt.Sprintf(`{"client_id":"vfreid","feature_negotiation":true,"tls_v1":%v,"snappy":%v,"deflate":%v,"deflate_level":%d}`,
+			kind == "tls", kind == "snappy", kind == "deflate", 1+r.Intn(9))
+		if err := c.identify(js); err != nil {
+			return fail("harness", fmt.Sprintf("IDENTIFY #%d {%s} write: %v", i+2, kind, err))
+		}
+		ft, data, err := c.frame(10 * time.Second)
+		if err != nil || ft != frameTypeResponse || !bytes.Contains(data, []byte(`"max_rdy_count"`)) {
+			return fail("harness", fmt.Sprintf("IDENTIFY #%d {%s}: the negotiation document does not arrive through the negotiated transport: frame %d %q err=%v", i+2, kind, ft, data, err))
+		}
+		e := ""
+		if kind == "tls" {
+			e = upTLS()
+		} else {
+			e = upComp(kind)
+		}
+		if e != "" {
+			return fail("harness", fmt.Sprintf("IDENTIFY #%d {%s}: %s", i+2, kind, e))
+		}
+	}
+	hasTLS := false
+	for _, u := range ups {
+		hasTLS = hasTLS || u == "tls"
+	}
 	// from here on an eavesdropper on the raw socket must not see protocol plaintext if anything
 	// was negotiated, and the client must receive everything through its stack
 	m0 := tap.mark()
 	// (only meaningful under TLS: snappy stores short / incompressible data as literals)
-	sniff := func(needle []byte) bool { return cb.tls && bytes.Contains(tap.since(m0), needle) }
-	_ = upgraded
+	sniff := func(needle []byte) bool { return hasTLS && bytes.Contains(tap.since(m0), needle) }
 	okFrame := []byte{0, 0, 0, 6, 0, 0, 0, 0, 'O', 'K'}
 	for k := 0; k <= cb.again; k++ {
 		sz := cb.buf2
@@ -508,38 +799,38 @@ func vfE1SReident(n *NSQD, cb vfE1SCombo, idx int, r *vfRand) (key, what string)
 			sz = []int{-1, 64, 777, 16384}[r.Intn(4)]
 		}
 		if sz == 0 && k == 0 {
-			break // control: no second IDENTIFY at all
+			break // control: no IDENTIFY with a buffer size after the upgrades
 		}
 		if err := c.identify(fmt.Sprintf(`{"client_id":"vfreid","output_buffer_size":%d}`, sz)); err != nil {
-			return "harness", "second IDENTIFY write: " + err.Error()
+			return fail("harness", "second IDENTIFY write: "+err.Error())
 		}
 		_, _, err := c.frame(15 * time.Second)
 		if ne, ok := err.(net.Error); ok && ne.Timeout() && !sniff(okFrame) {
-			return "harness", fmt.Sprintf("IDENTIFY #%d: no answer within 15 s (%v)", k+2, err)
+			return fail("harness", fmt.Sprintf("IDENTIFY #%d: no answer within 15 s (%v)", k+2+len(cb.more), err))
 		}
 		if err != nil || sniff(okFrame) {
 			clear := ""
 			if sniff(okFrame) {
 				clear = "; the plain frame 00000006 00000000 \"OK\" is on the raw socket"
 			}
-			return "second-identify-cleartext", fmt.Sprintf("IDENTIFY #%d (output_buffer_size %d) after the upgrade is not answered through the negotiated transport (%v)%s", k+2, sz, err, clear)
+			return fail("second-identify-cleartext", fmt.Sprintf("IDENTIFY #%d (output_buffer_size %d) after the upgrade is not answered through the negotiated transport (%v)%s", k+2+len(cb.more), sz, err, clear))
 		}
 	}
 	topic := fmt.Sprintf("vfreid%d", idx)
 	t := n.GetTopic(topic)
 	t.GetChannel("c")
 	if err := c.send([]byte("SUB " + topic + " c\n")); err != nil {
-		return "harness", err.Error()
+		return fail("harness", err.Error())
 	}
 	if e := expectOK("OK after SUB"); e != "" {
 		if sniff(okFrame) {
 			return "second-identify-cleartext", "the answer to SUB went to the raw socket in cleartext: " + e
 		}
-		return "harness", e
+		return fail("harness", e)
 	}
 	nmsg := 3 + r.Intn(4)
 	if err := c.send([]byte(fmt.Sprintf("RDY %d\n", nmsg))); err != nil {
-		return "harness", err.Error()
+		return fail("harness", err.Error())
 	}
 	want := map[string]bool{}
 	var secret []byte
@@ -554,14 +845,14 @@ func vfE1SReident(n *NSQD, cb vfE1SCombo, idx int, r *vfRand) (key, what string)
 	for len(want) > 0 {
 		ft, data, err := c.frame(20 * time.Second)
 		if ne, ok := err.(net.Error); ok && ne.Timeout() && !sniff(secret) {
-			return "harness", fmt.Sprintf("%d of %d messages did not arrive within 20 s (%v)", len(want), nmsg, err)
+			return fail("harness", fmt.Sprintf("%d of %d messages did not arrive within 20 s (%v)", len(want), nmsg, err))
 		}
 		if err != nil {
 			clear := ""
 			if sniff(secret) {
 				clear = "; a message body is readable in CLEARTEXT on the raw socket"
 			}
-			return "second-identify-cleartext", fmt.Sprintf("%d of %d messages did not arrive through the negotiated transport (%v)%s", len(want), nmsg, err, clear)
+			return fail("second-identify-cleartext", fmt.Sprintf("%d of %d messages did not arrive through the negotiated transport (%v)%s", len(want), nmsg, err, clear))
 		}
 		if ft != frameTypeMessage || len(data) < 26 {
 			return "reident-frame", fmt.Sprintf("unexpected frame %d %q while waiting for messages", ft, data)
@@ -579,14 +870,63 @@ func vfE1SReident(n *NSQD, cb vfE1SCombo, idx int, r *vfRand) (key, what string)
 	return "", ""
 }
 
-func TestVerifReidentify(t *testing.T) {
-	certDir := ""
-	for _, c := range []string{filepath.Join(os.Getenv("VERIF_REPO"), "nsqd", "test", "certs"), "/repo/nsqd/test/certs", "./test/certs"} {
-		if _, err := os.Stat(filepath.Join(c, "server.pem")); err == nil {
-			certDir = c
-			break
+// vfE1SSkipR drops deflate sync markers (00 00 00 ff ff) in front of the first byte of the next stack.
+type vfE1SSkipR struct {
+	r       io.Reader
+	done    bool
+	skipped int
+}
+
+func (c *vfE1SSkipR) Read(p []byte) (int, error) {
+	for !c.done {
+		var one [1]byte
+		if _, err := io.ReadFull(c.r, one[:]); err != nil {
+			return 0, err
 		}
+		if one[0] != 0 {
+			c.done = true
+			p[0] = one[0]
+			return 1, nil
+		}
+		var rest [4]byte
+		if _, err := io.ReadFull(c.r, rest[:]); err != nil {
+			return 0, err
+		}
+		if rest != [4]byte{0, 0, 0xff, 0xff} {
+			return 0, fmt.Errorf("vfE1SSkip: %x%x in front of the next stack is not a deflate sync marker", one, rest)
+		}
+		c.skipped++
 	}
+	return c.r.Read(p)
+}
+
+// vfE1SSkip: the same as a net.Conn (what a TLS client runs on)
+type vfE1SSkip struct {
+	net.Conn
+	vfE1SSkipR
+}
+
+func (c *vfE1SSkip) Read(p []byte) (int, error) { return c.vfE1SSkipR.Read(p) }
+
+type vfE1SByteReader struct{ io.Reader }
+
+func (b vfE1SByteReader) ReadByte() (byte, error) {
+	var one [1]byte
+	_, err := io.ReadFull(b.Reader, one[:])
+	return one[0], err
+}
+
+// vfE1SOrders: sequences of IDENTIFYs that negotiate upgrades one after the other (round 11). The first entry is the
+// first IDENTIFY ("tls+deflate" = both in one IDENTIFY: the server performs TLS first), the rest go to `more`.
+var vfE1SOrders = [][]string{
+	{"deflate", "tls"}, {"snappy", "tls"}, {"tls", "deflate", "tls"}, {"tls", "snappy", "tls"}, {"tls", "tls"},
+	{"tls+deflate", "tls"}, {"tls+snappy", "tls"}, {"deflate", "tls", "snappy"}, {"deflate", "tls", "deflate"},
+	{"deflate", "tls", "tls"}, {"tls+deflate", "tls", "snappy"}, {"deflate", "snappy"}, {"snappy", "deflate"},
+	{"deflate", "deflate"}, {"snappy", "deflate", "tls"}, {"tls", "deflate", "snappy", "tls"},
+}
+
+func TestVerifReidentify(t *testing.T) {
+	certDir := vfE1SCertDir()
 	if certDir == "" {
 		t.Fatalf("TLS test certificates not found (set VERIF_REPO)")
 	}
@@ -609,6 +949,7 @@ func TestVerifReidentify(t *testing.T) {
 		opts.MsgTimeout = 10 * time.Minute
 		_, _, nsqd := mustStartNSQD(opts)
 		for round := 0; round < rounds; round++ {
+			var combos []vfE1SCombo
 			for _, tl := range []bool{false, true} {
 				if required && !tl {
 					continue
@@ -619,19 +960,40 @@ func TestVerifReidentify(t *testing.T) {
 						if buf2 != 0 {
 							cb.again = r.Intn(3)
 						}
-						key, what := vfE1SReident(nsqd, cb, cases, r)
-						cases++
-						req := 0
-						if required {
-							req = 1
-						}
-						if key != "" {
-							failed++
-							fmt.Printf("REIDENT-FAIL key=%s combo=tls-required=%d %s what=%s\n", key, req, cb, strings.ReplaceAll(what, "\n", " "))
-						} else {
-							fmt.Printf("REIDENT-CASE tls-required=%d %s ok\n", req, cb)
-						}
+						combos = append(combos, cb)
 					}
+				}
+			}
+			// round 11: several IDENTIFYs that negotiate upgrades, in every order that matters
+			for _, ord := range vfE1SOrders {
+				first := ord[0]
+				cb := vfE1SCombo{tls: strings.HasPrefix(first, "tls"), comp: "none", more: ord[1:]}
+				if required && !cb.tls {
+					continue
+				}
+				if i := strings.Index(first, "+"); i >= 0 {
+					cb.comp = first[i+1:]
+				} else if first != "tls" {
+					cb.comp = first
+				}
+				cb.buf1 = []int{0, 64, 16384}[r.Intn(3)]
+				combos = append(combos, cb)
+				cb.buf2 = []int{-1, 64, 4096}[r.Intn(3)]
+				cb.again = r.Intn(2)
+				combos = append(combos, cb)
+			}
+			for _, cb := range combos {
+				key, what := vfE1SReident(nsqd, cb, cases, r)
+				cases++
+				req := 0
+				if required {
+					req = 1
+				}
+				if key != "" {
+					failed++
+					fmt.Printf("REIDENT-FAIL key=%s combo=tls-required=%d %s what=%s\n", key, req, cb, strings.ReplaceAll(what, "\n", " "))
+				} else {
+					fmt.Printf("REIDENT-CASE tls-required=%d %s ok\n", req, cb)
 				}
 			}
 		}
